@@ -590,6 +590,26 @@ pub fn c33(base: &Case, rng: &mut Rng, thorough: bool) -> Vec<Mutant> {
             }
         }
     }
+    // native scripts with degenerate n-of-k nodes (0 of nothing, 0 of 2, 3 of 2, huge n), nested too
+    {
+        let sig = |b: u8| Cb::array(vec![Cb::uint(0), Cb::bytes(&[b; 28])]);
+        let nofk = |n: u64, ks: Vec<Cb>| Cb::array(vec![Cb::uint(3), Cb::uint(n), Cb::array(ks)]);
+        let scripts = vec![
+            ("0-of-0", nofk(0, vec![])),
+            ("0-of-2", nofk(0, vec![sig(1), sig(2)])),
+            ("3-of-2", nofk(3, vec![sig(1), sig(2)])),
+            ("max-of-1", nofk(u32::MAX as u64, vec![sig(1)])),
+            ("nested-0-of-1", Cb::array(vec![Cb::uint(1), Cb::array(vec![nofk(0, vec![sig(3)])])])),
+        ];
+        for (label, script) in scripts {
+            let mut c = base.clone();
+            if c.wits().get(1).is_none() {
+                c.wits_mut().set(1, Cb::array(vec![]));
+            }
+            c.wits_mut().get_mut(1).unwrap().items_mut().unwrap().push(script);
+            out.push(m(&format!("native-script-n-of-k/{label}"), c));
+        }
+    }
     // the phase-2 validity flag cleared (it is outside the body: signatures stay valid)
     let mut c = base.clone();
     c.tx.items_mut().unwrap()[2] = Cb::Simple(20, false);
@@ -1098,6 +1118,19 @@ pub fn c36(base: &Case, rng: &mut Rng, thorough: bool) -> Vec<Mutant> {
 }
 
 fn c36_probes(base: &Case, suffix: &str) -> Vec<Mutant> {
+    let mut out = c36_probes_inner(base, suffix);
+    // the same boundaries with the phase-2 validity flag cleared (the fee and size rules do not depend on it)
+    if suffix.is_empty() && matches!(base.era.as_str(), "alonzo" | "babbage" | "conway") {
+        let mut c = base.clone();
+        c.tx.items_mut().unwrap()[2] = Cb::Simple(20, false);
+        if c.run().verdict == "accept" {
+            out.extend(c36_probes_inner(&c, "/is-valid-false"));
+        }
+    }
+    out
+}
+
+fn c36_probes_inner(base: &Case, suffix: &str) -> Vec<Mutant> {
     let mut out = vec![];
     if base.is_byron() {
         return out;
@@ -1349,6 +1382,29 @@ pub fn c35(base: &Case, rng: &mut Rng, thorough: bool) -> Vec<Mutant> {
         }
     }
     out.push(m("extra-valid+corrupted/back", c));
+    // a valid signature / key followed by extra bytes is not a valid 64 / 32 byte signature / key
+    for (which, label) in [(1usize, "signature"), (0, "key")] {
+        // on the first witness (signature only: a longer key has another hash) and on an extra valid witness
+        for extra in [false, true] {
+            if which == 0 && !extra {
+                continue;
+            }
+            let mut c = base.clone();
+            if extra {
+                c.add_witness(true, b"tb");
+            }
+            let nn = c.n_vkey_wits();
+            if nn == 0 {
+                continue;
+            }
+            let idx = if extra { nn - 1 } else { 0 };
+            let w = &mut c.vkey_wits_mut().unwrap()[idx];
+            let mut b = w.items().unwrap()[which].as_bytes().cloned().unwrap_or_default();
+            b.push(0x2a);
+            w.items_mut().unwrap()[which] = Cb::bytes(&b);
+            out.push(m(&format!("trailing-byte/{label}/{}", if extra { "extra-witness" } else { "first-witness" }), c));
+        }
+    }
     // non-canonical re-encodings of the body: witnesses over the transaction id (the wire bytes) / over the
     // hash of the body as the codec would re-encode it
     for style in Case::ENCODINGS {
